@@ -97,11 +97,13 @@ func (self *Assembler) debug_instr(i int, v *ir.Instr) {
 			self.print_gc(i, v, &_Instr_End)
 		} else {
 			next := &(self.p[i+1])
-			self.print_gc(i, v, next)
 			name := ir.OpNames[next.Op()]
 			if strings.Contains(name, "save") {
+				// the value just produced (the map iterator of OP_map_iter) lives in a
+				// register until the OP_save stores it, no call into Go before that
 				return
 			}
+			self.print_gc(i, v, next)
 		}
 		// self.debug_gc()
 	}
